@@ -470,6 +470,12 @@ def glue_contextlib() -> None:
                     # for actual __exit__ invocations. Later versions use a method.
                     not isinstance(callback, types.MethodType)
                     or callback.__func__.__name__ in ("__exit__", "__aexit__")
+                    # ... which binds whatever the manager's type has as its exit
+                    # method, even if that was defined under another name
+                    or callback.__func__
+                    is getattr(
+                        type(manager), "__exit__" if is_sync else "__aexit__", None
+                    )
                 ):
                     # stack.enter_context(some_cm) or stack.push(some_cm)
                     tag = "" if is_sync else "await "
